@@ -147,7 +147,13 @@ def report_sinks(ctx, rule_of, sc: Scan, fi=None, categories=None, why_of=None, 
     ctx.count('unitai_paths', sc.paths)
     ctx.count('unitai_sink_checks', sc.sink_checks)
     n = 0
+    top = fi
+    while top.parent is not None:
+        top = top.parent
+    lo, hi = top.node.lineno, getattr(top.node, 'end_lineno', top.node.lineno)
     for (line, cat), count in sorted(sc.sinks.items()):
+        if not (lo <= line <= hi):
+            continue            # a sink inside an inlined callee: reported by the scan of that callee
         rule = rule_of(cat)
         if rule is None or (categories is not None and cat not in categories):
             continue
